@@ -1,6 +1,7 @@
 """C09 — everything that creates a polynomial yields canonical, CRT-consistent residues."""
 import os, sys
 sys.path.insert(0, os.path.dirname(os.path.dirname(os.path.abspath(__file__))))
+import _set_common as sc
 import samplers_streams as ss
 from props import COMMON_TB
 
@@ -19,9 +20,11 @@ def search(ctx, res, problems):
 
 
 PROP = {
-    "streams": streams, "search": search,
+    "streams": streams, "search": search, "translators": sc.translators_set,
     "rule": "real creators (poly / poly_p constructors, set, operator=) run with nfl::fastrandombytes replaced at link time by a scripted tape: all 2^16 words for uniform and for 19 (B,A) pairs on the 16-bit limb, all 256 bytes x all 256 rho, boundary words (0,1,p-1,p,p+1,mask,mask+1,2^w-1,…) on 32/64 bit, B in powers of two and neighbours up to 2^20 (2^61 thorough) and 2^47..2^61 on uint64, A in {1,2,3,1024}, all (n<=8,h) index tuples with rejection-zone words, fixed weight / uniform / bounded / ternary at the largest degrees of every limb (512, 32768, 2^17; 2^20 thorough), fixed weight with the extreme weights (h = n, n-1; more classes at 64..512 and in the thorough tier) at every degree class 64..2^17, bounds at/beyond the limb width (must throw), ternary rho = 0 / 255 at the largest degrees and uniform with every row of the 32/64-bit tables as a modulus, real FastGaussianNoise on the same tape, scalars/lists/mpz; every line: model equality + executable spec (canonical, one signed integer in the support for all moduli) on the implementation's output; the mask of set(uniform) of all 1293 rows extracted bit by bit from the real code and compared with the model (Nat.log2) and with an integer bit length; excluded points (A*(B-1)>=p, A=0, B=0, |v|*amp>=p) are run and reported in class_histogram, not judged; distinct = distinct op lines",
     "trusted_base": COMMON_TB + [
+        "source-level tie of the per-coefficient arithmetic of set(uniform / non_uniform / gaussian / ZO_dist / hwt_dist / value / It,It): clang++-14's typed AST (-ast-dump=json) of the instantiated members of poly<T,8,2> (poly<T,16,1> must give the same text), tools/gen_set_ast.py's traversal and its slice convention (a piece = one iteration of the loops over i / cm; loop variables only in array indices and get_modulus; index expressions checked; cells written inside a loop depend on its variable; `*ptr++` = the cell the walking pointer designates), the per-node integer semantics of lean/NflVerif/Model/CSem.lean + CSemSet.lean (variable shift counts and divisors listed under translators.gen_set_ast.ub_*_sites; unsigned->signed conversion modular), std::numeric_limits<size_t>::max() = 2^64-1; the if/else joining the two loop bodies of set(non_uniform) is re-assembled by hand (Nfl.C09Ast.bnd_uW); loops, request sizes, refills, sort and the composition into whole polynomials are NOT translated (hand model + differential stream)",
+        "floor(log2((double) p)) enters the translated mask of set(uniform) as a function parameter `flog2`; the equality with the model is proved under `flog2 p = Nat.log2 p`",
         "floor(log2((double)p)) of set(uniform) is modelled by Nat.log2: validated on all 1293 rows by the umask stream on every run, not proved",
         "the harness's replacement of nfl::fastrandombytes serves the scripted bytes in call order and records them (the recorded requests, not the script, are what the model receives)",
         "FastGaussianNoise::getNoise is not modelled here: the noise it wrote (same object, same tape) is a parameter of the model",
